@@ -143,7 +143,7 @@ ChooseReqHeaders ==
     /\ UNCHANGED m
 
 \* ---- reject mode: the rejection catalogue (validate, resolveMethod, classifyRequest, handle)
-RejectClasses == PreValidationRejects \cup PostValidationRejects \cup {"unknownpath-handler"}
+RejectClasses == PreValidationRejects \cup PostValidationRejects \cup {"unknownpath-handler", "restonly-norule-handler"}
 
 \* a base request on which the rejection class can be expressed
 RejectBase(rej, f) ==
@@ -156,6 +156,7 @@ RejectBase(rej, f) ==
       [] rej = "contentencoding" -> f \in {"grpc", "grpcweb", "connect_stream"}
       [] rej = "unknowncomp" -> f # "connect_get"
       [] rej = "restonly-norule" -> f # "rest"
+      [] rej = "restonly-norule-handler" -> f \in {"grpc", "grpcweb", "connect_post"}
       [] rej = "leading-undecodable" -> f # "connect_get"
       [] rej = "leading-truncated" -> f \in {"grpc", "grpcweb", "connect_stream"}
       [] OTHER -> FALSE
@@ -167,12 +168,12 @@ ChooseReject ==
          /\ f = "rest" => c = "json"
          /\ rej = "unknowncodec" => f # "rest"
          /\ rej = "noflusher" => ProtoOf(f) \notin Range(scn.cfg.protos)     \* a pass-through needs no Flusher
-         /\ rej = "restonly-norule" => scn.cfg.protos = <<"rest">>
+         /\ rej \in {"restonly-norule", "restonly-norule-handler"} => scn.cfg.protos = <<"rest">>
          /\ rej \in {"leading-undecodable", "leading-truncated"} => (scn.cfg.protos = <<"rest">> /\ f # "rest")
-         /\ rej \notin {"restonly-norule", "leading-undecodable", "leading-truncated"} /\ f # "rest" => scn.cfg.protos # <<"rest">>
+         /\ rej \notin {"restonly-norule", "restonly-norule-handler", "leading-undecodable", "leading-truncated"} /\ f # "rest" => scn.cfg.protos # <<"rest">>
          /\ LET meth == CASE rej = "streamtype" -> (IF f = "connect_stream" THEN "Plain" ELSE "CStream")
                           [] rej = "bidi-http1" -> "Bidi"
-                          [] rej = "restonly-norule" -> "Plain"
+                          [] rej \in {"restonly-norule", "restonly-norule-handler"} -> "Plain"
                           [] rej = "rpc-get-notnse" -> "Plain"
                           [] f = "connect_get" -> "Query"
                           [] f = "connect_stream" -> "CStream"
@@ -184,7 +185,7 @@ ChooseReject ==
             IN scn' = [scn EXCEPT !.cl.rej = rej, !.cl.form = f, !.cl.codec = c, !.cl.method = meth,
                                   !.cl.major = IF rej \in {"bidi-http1", "grpc-http1"} THEN 1 ELSE MajorFor(f, meth),
                                   !.cl.frames = <<fr>>,
-                                  !.cfg.unknown = (rej = "unknownpath-handler"),
+                                  !.cfg.unknown = ToUnknown(rej),
                                   !.hd.frames = <<Frame(2, FALSE)>>, !.hd.errat = 1]
     /\ ph' = "run"
     /\ UNCHANGED m
@@ -270,7 +271,12 @@ ChooseRespHeaders ==
          /\ (style \in {"prefixed", "declaredlc"} => Srv.form = "grpc")
          /\ (Srv.proto = "rest" \/ scn.cl.form = "rest" => ts = <<>>)   \* REST has no trailer position (DESIGN: C05 scope note)
          /\ Len(hs) <= 2 \/ Len(ts) <= 1
-         /\ scn' = [scn EXCEPT !.hd.hdrs = hs, !.hd.end.trl = ts, !.hd.end.style = style]
+         /\ \/ scn' = [scn EXCEPT !.hd.hdrs = hs, !.hd.end.trl = ts, !.hd.end.style = style]
+            \* a Connect unary backend (or something in front of it) fails with a status and a body that is not a
+            \* Connect error, and still sets headers and Trailer- headers: they are the handler's metadata all the same
+            \/ /\ Srv.form = "connect_post" /\ scn.hd.end.code = 0 /\ Len(hs) <= 1 /\ Len(ts) = 1
+               /\ scn' = [scn EXCEPT !.hd.hdrs = hs, !.hd.end = [DefaultEnd EXCEPT !.how = "barehttp", !.code = 0, !.trl = ts],
+                                     !.hd.status = 503, !.hd.frames = <<>>, !.hd.errat = 0]
     /\ ph' = "run"
     /\ UNCHANGED m
 
